@@ -327,3 +327,5 @@ def summarize(results, tier):
         "exhaustive": True,
         "explanation": "every transition is an execution of the real evaluate() on restored real cache contents",
     }
+
+RULE += ' Session 4 systems: memoizing consumers over a materialised Map whose mapped key is the dispatch value; overloads expressed through with_options derivatives of the dataset they overload (nested evaluations through one shared cache); two datasets defined through one stored factory holding a cache callable.'
